@@ -244,6 +244,10 @@ func (enc Encryptor) encryptZeroPk(pk *PublicKey, ct interface{}) (err error) {
 		if ct.Degree() < 1 {
 			return fmt.Errorf("cannot EncryptZero: a public-key encryption requires a ciphertext of degree at least 1")
 		}
+		// No auxiliary modulus at this level: same procedure as for parameters without P, on the Q part.
+		if ct.LevelP() == -1 {
+			return enc.encryptZeroPkNoP(pk, Element[ring.Poly]{MetaData: ct.MetaData, Value: []ring.Poly{ct.Value[0].Q, ct.Value[1].Q}})
+		}
 	}
 
 	var levelQ, levelP int
